@@ -77,7 +77,9 @@ JudgeNL(ev) ==
 
 Judge(ev) ==
     LET tr == ev.trait IN
-    IF tr \in LogicNames THEN
+    \* the translation unit that only includes the headers and declares the zoo must be well-formed
+    IF tr = "translation_unit" THEN (IF Ill(ev) THEN "ill-formed" ELSE "ok")
+    ELSE IF tr \in LogicNames THEN
         (IF ~LogicPre(tr, ev.bs) THEN "harness-pre" ELSE JVal(ev, LogicVal(tr, ev.bs)))
     ELSE IF tr \in RatioNames THEN JudgeRatio(ev)
     ELSE IF tr \in NLNames THEN JudgeNL(ev)
@@ -102,7 +104,8 @@ Judge(ev) ==
 
 Expected(ev) ==
     LET tr == ev.trait IN
-    IF tr \in LogicNames THEN ToJson(LogicVal(tr, ev.bs))
+    IF tr = "translation_unit" THEN "-"
+    ELSE IF tr \in LogicNames THEN ToJson(LogicVal(tr, ev.bs))
     ELSE IF tr \in RatioNames /\ Has(ev, "a") THEN
         (IF tr = "ratio" THEN ToJson(BigNorm(ev.a)) ELSE ToJson(BigCmp(tr, ev.a, ev.b)))
     ELSE IF tr \in RatioNames THEN
